@@ -500,12 +500,14 @@ def main(run):
                                     if any(p["edit"] is not None or p["delete"] for p in c.points)}),
         "rule": ("packages of harness/histgen.py (%s), command in one of the modes -file= (+ -sep), -type=* with a go:generate "
                  "line (+ -sep), -type=<2..4 names>; histories: fresh run, then 1..3 points out of {repeat, edit the sources and "
-                 "keep the stale output, delete the output, both}; edits: add/remove/retype a field, toggle a directive, add a "
+                 "keep the stale output, delete the output, both}; edits: add/remove/retype a field, toggle a field directive or the type-level getter/setter directive of an embedded struct, add a "
                  "constant / change a value / add a type, add a method / change a path / change headers, add a field to both map "
                  "sides / toggle map:\"-\", add an unrelated function; per point %d executions from copies of the same directory "
                  "(one copy at a deeper absolute path, one given [dir] from the module root) and the same command on a fresh "
                  "copy of the current sources.  non-trivial = distinct (command, source versions) whose history has an edit or a "
-                 "deletion" % (plan, nexec)),
+                 "deletion; plus fixed histories: the corpus packages of c08.py (fresh, repeat, delete), new -getset -json -type=* "
+                 "repeated twice (the second run lists the first run's output), new -getset with one file per type where the "
+                 "accessor interfaces of the embedded type appear/disappear while the old output stays" % (plan, nexec)),
         "exhaustive": False,
         "traces_validated_against_impl": sum(len(c.points) for c in cases),
         "programs": len(cases),
